@@ -43,7 +43,11 @@ def main():
     from setuptools.dist import Distribution
     from Cython.Build import cythonize
 
-    extra = ["-Wno-unused-function", "-O1" if sanitize else "-O2"]
+    opt = "-O1" if sanitize else "-O2"
+    for a in sys.argv[3:]:
+        if a.startswith("--opt="):
+            opt = a.split("=", 1)[1]
+    extra = ["-Wno-unused-function", "-w", opt]
     link = []
     if sanitize:
         extra += ["-fsanitize=address,undefined", "-fno-sanitize-recover=all", "-fno-omit-frame-pointer", "-g"]
@@ -58,7 +62,10 @@ def main():
     mods = cythonize(exts, nthreads=int(os.environ.get("VERIF_BUILD_JOBS", "16")), exclude_failures=True, quiet=True,
                      compiler_directives={"language_level": 3} if False else {})
     if not only or "cmurmur3" in only:
-        mods.append(Extension("cassandra.cmurmur3", ["cassandra/cmurmur3.c"], extra_compile_args=extra, extra_link_args=link))
+        # cmurmur3.c relies on C99 'inline' helpers being inlined: below -O2 gcc emits no body for them
+        # (undefined symbol rotl64 at import), so this module is always built at the optimisation level wheels use
+        mods.append(Extension("cassandra.cmurmur3", ["cassandra/cmurmur3.c"],
+                              extra_compile_args=[a for a in extra if a not in ("-O0", "-O1")] + ["-O2"], extra_link_args=link))
     dist = Distribution({"name": "x", "ext_modules": mods})
     cmd = dist.get_command_obj("build_ext")
     cmd.inplace = True
